@@ -61,6 +61,10 @@ type DAGResult struct {
 
 // DAG computes the static call graph below root inside the module and checks
 // that it is acyclic and that every function in it is loop-free.
+// ResolveFuncValue, when set, resolves a call through a function value to the
+// set of functions it can denote (e.g. the entries of a constant table).
+var ResolveFuncValue func(v ssa.Value) ([]*ssa.Function, bool)
+
 func DAG(p *load.Program, root *ssa.Function) *DAGResult {
 	res := &DAGResult{Invokes: map[string]int{}, Externals: map[string]int{}}
 	state := map[*ssa.Function]int{} // 1 = on stack, 2 = done
@@ -121,6 +125,16 @@ func DAG(p *load.Program, root *ssa.Function) *DAGResult {
 					}
 					cal := cc.StaticCallee()
 					if cal == nil {
+						if ResolveFuncValue != nil {
+							if fs, ok := ResolveFuncValue(cc.Value); ok {
+								for _, f := range fs {
+									if load.InModule(f) && f.Blocks != nil {
+										visit(f)
+									}
+								}
+								continue
+							}
+						}
 						res.Dynamic = append(res.Dynamic, p.Pos(x.Pos()))
 						continue
 					}
